@@ -61,6 +61,7 @@ take place; distinct = distinct hash of (program, source, mode, layout).",
             "probe.strict_read_between_definitions",
             "probe.read_through_list_element",
             "probe.read_through_chain",
+            "probe.mutable_variable_reassigned",
             "probe.layout.descending",
             "probe.layout.scatter",
             "probe.layout.reuse",
@@ -89,8 +90,10 @@ fn tag_of(n: &Node) -> String {
 
 #[derive(Clone, Debug)]
 enum Stz {
-    /// `let @x.NAME = TAG(@x)` for every match of `query` (capture x)
-    DefTag { query: String, name: String },
+    /// `let @x.NAME = TAG(@x)` for every match of `query` (capture x); `var` when mutable
+    DefTag { query: String, name: String, mutable: bool },
+    /// strict only: `set @y.NAME = "M:" TAG(@y)` — needs an own, mutable definition on @y
+    Mutate { query: String, name: String },
     /// `let @c.LINK = @f` (syntax-node-valued)
     DefLink { query: String, name: String },
     /// `for y in @ys { let @x.NAME = TAG(@x) }`: one definition on the fixed node @x per list
@@ -187,7 +190,7 @@ fn link_reader_for(q: &str) -> &'static str {
     }
 }
 
-fn gen_schema(r: &mut Rng) -> Schema {
+fn gen_schema(r: &mut Rng, lazy: bool) -> Schema {
     let mut s = Schema {
         inherits: Vec::new(),
         stanzas: Vec::new(),
@@ -197,7 +200,7 @@ fn gen_schema(r: &mut Rng) -> Schema {
     match style {
         0 => {
             // every identifier tagged; identifiers read through several routes
-            s.stanzas.push(Stz::DefTag { query: "(identifier) @x".into(), name: name.clone() });
+            s.stanzas.push(Stz::DefTag { query: "(identifier) @x".into(), name: name.clone(), mutable: false });
             let n = r.range(1, 3);
             for _ in 0..n {
                 let q = *r.pick(&[
@@ -218,14 +221,14 @@ fn gen_schema(r: &mut Rng) -> Schema {
             // containers tagged and inherited by everything below
             s.inherits.push(name.clone());
             let containers = ["(module) @x", "(function_definition) @x", "(call) @x", "(block) @x", "(argument_list) @x", "(assignment) @x"];
-            s.stanzas.push(Stz::DefTag { query: "(module) @x".into(), name: name.clone() });
+            s.stanzas.push(Stz::DefTag { query: "(module) @x".into(), name: name.clone(), mutable: false });
             let n = r.range(0, 3);
             let mut used = vec!["(module) @x"];
             for _ in 0..n {
                 let q = *r.pick(&containers);
                 if !used.contains(&q) {
                     used.push(q);
-                    s.stanzas.push(Stz::DefTag { query: q.into(), name: name.clone() });
+                    s.stanzas.push(Stz::DefTag { query: q.into(), name: name.clone(), mutable: false });
                 }
             }
             let m = r.range(1, 3);
@@ -248,15 +251,22 @@ fn gen_schema(r: &mut Rng) -> Schema {
                     chosen.push(k);
                 }
             }
+            // in strict mode the variables may be mutable and re-assigned through another capture
+            let mutable = !lazy && r.chance(1, 2);
             for k in &chosen {
-                s.stanzas.push(Stz::DefTag { query: format!("({}) @x", k), name: name.clone() });
+                s.stanzas.push(Stz::DefTag { query: format!("({}) @x", k), name: name.clone(), mutable });
+            }
+            if mutable || r.chance(1, 8) {
+                let k = *r.pick(&chosen);
+                let q = if r.chance(1, 4) { (*r.pick(READ_DIRECT)).to_string() } else { format!("({}) @y", k) };
+                s.stanzas.push(Stz::Mutate { query: q, name: name.clone() });
             }
             for k in &chosen {
                 s.stanzas.push(Stz::ReadDirect { query: format!("({}) @y", k), name: name.clone() });
             }
             // a second, unrelated name on other nodes must not leak
             if r.chance(1, 2) {
-                s.stanzas.push(Stz::DefTag { query: "(module) @x".into(), name: "other".into() });
+                s.stanzas.push(Stz::DefTag { query: "(module) @x".into(), name: "other".into(), mutable: false });
             }
         }
         3 => {
@@ -269,7 +279,7 @@ fn gen_schema(r: &mut Rng) -> Schema {
                 if r.chance(1, 5) {
                     s.stanzas.push(Stz::DefInLoop { query: (*r.pick(DEF_LOOP_QUERIES)).into(), name: name.clone() });
                 } else {
-                    s.stanzas.push(Stz::DefTag { query: (*r.pick(DEF_QUERIES)).into(), name: name.clone() });
+                    s.stanzas.push(Stz::DefTag { query: (*r.pick(DEF_QUERIES)).into(), name: name.clone(), mutable: false });
                 }
             }
             let m = r.range(1, 3);
@@ -282,10 +292,10 @@ fn gen_schema(r: &mut Rng) -> Schema {
         }
         _ => {
             // wildcard definer over all children of module, read through the list route
-            s.stanzas.push(Stz::DefTag { query: "(module (_) @x)".into(), name: name.clone() });
+            s.stanzas.push(Stz::DefTag { query: "(module (_) @x)".into(), name: name.clone(), mutable: false });
             s.stanzas.push(Stz::ReadList { query: "(module (_)* @ys)".into(), name: name.clone() });
             if r.chance(1, 2) {
-                s.stanzas.push(Stz::DefTag { query: "(argument_list (_) @x)".into(), name: name.clone() });
+                s.stanzas.push(Stz::DefTag { query: "(argument_list (_) @x)".into(), name: name.clone(), mutable: false });
                 s.stanzas.push(Stz::ReadList { query: "(argument_list (_)* @ys)".into(), name: name.clone() });
             }
         }
@@ -302,11 +312,18 @@ fn render(s: &Schema, order: &[usize]) -> String {
     for (ri, idx) in order.iter().enumerate() {
         let _ = ri;
         match &s.stanzas[*idx] {
-            Stz::DefTag { query, name } => out.push_str(&format!(
-                "{}\n{{\n  let @x.{} = {}\n}}\n\n",
+            Stz::DefTag { query, name, mutable } => out.push_str(&format!(
+                "{}\n{{\n  {} @x.{} = {}\n}}\n\n",
                 query,
+                if *mutable { "var" } else { "let" },
                 name,
                 tag_expr("@x")
+            )),
+            Stz::Mutate { query, name } => out.push_str(&format!(
+                "{}\n{{\n  set @y.{} = (format \"M:{{}}\" {})\n}}\n\n",
+                query,
+                name,
+                tag_expr("@y")
             )),
             Stz::DefLink { query, name } => {
                 out.push_str(&format!("{}\n{{\n  let @c.{} = @f\n}}\n\n", query, name))
@@ -369,6 +386,7 @@ struct Expected {
     inherited_reads: usize,
     list_reads: usize,
     chain_reads: usize,
+    mutations: usize,
 }
 
 /// The reference model.  In lazy mode every definition is collected before any read is
@@ -377,6 +395,7 @@ struct Expected {
 fn model(s: &Schema, order: &[usize], lazy: bool, tree: &Tree, source: &str) -> Result<Expected, String> {
     let mut e = Expected::default();
     let mut tags: BTreeMap<String, BTreeMap<usize, String>> = BTreeMap::new();
+    let mut mutable_defs: std::collections::BTreeSet<(String, usize)> = Default::default();
     let mut links: BTreeMap<String, BTreeMap<usize, Node>> = BTreeMap::new();
     // two passes in lazy mode (definitions, then reads); one pass in file order in strict mode
     let passes: Vec<(Vec<usize>, bool, bool)> = if lazy {
@@ -391,10 +410,35 @@ fn model(s: &Schema, order: &[usize], lazy: bool, tree: &Tree, source: &str) -> 
             }
             let st = &s.stanzas[idx];
             match st {
-                Stz::DefTag { query, name } if do_defs => {
+                Stz::Mutate { query, name } if do_defs => {
+                    for m in matches(query, "y", tree, source)? {
+                        let n = m[0];
+                        e.mutations += 1;
+                        if lazy {
+                            e.fails = true;
+                            e.why = "scoped variables cannot be assigned in lazy mode".into();
+                        } else if mutable_defs.contains(&(name.clone(), n.id())) {
+                            tags.get_mut(name).unwrap().insert(n.id(), format!("M:{}", tag_of(&n)));
+                        } else {
+                            e.fails = true;
+                            e.why = format!("{} assigned on {} which has no mutable definition of its own", name, tag_of(&n));
+                        }
+                        if e.fails && !lazy {
+                            break;
+                        }
+                    }
+                }
+                Stz::DefTag { query, name, mutable } if do_defs => {
                     for m in matches(query, "x", tree, source)? {
                         for n in m {
                             e.definitions += 1;
+                            if *mutable {
+                                if lazy {
+                                    e.fails = true;
+                                    e.why = "mutable scoped variables cannot be defined in lazy mode".into();
+                                }
+                                mutable_defs.insert((name.clone(), n.id()));
+                            }
                             if tags.entry(name.clone()).or_default().insert(n.id(), tag_of(&n)).is_some() {
                                 e.fails = true;
                                 e.why = format!("{} defined twice on {}", name, tag_of(&n));
@@ -525,7 +569,8 @@ fn schema_to_json(s: &Schema) -> J {
         .stanzas
         .iter()
         .map(|x| match x {
-            Stz::DefTag { query, name } => json!({"k": "deftag", "query": query, "name": name}),
+            Stz::DefTag { query, name, mutable } => json!({"k": "deftag", "query": query, "name": name, "mutable": mutable}),
+            Stz::Mutate { query, name } => json!({"k": "mutate", "query": query, "name": name}),
             Stz::DefLink { query, name } => json!({"k": "deflink", "query": query, "name": name}),
             Stz::DefInLoop { query, name } => json!({"k": "defloop", "query": query, "name": name}),
             Stz::ReadDirect { query, name } => json!({"k": "read", "query": query, "name": name}),
@@ -550,7 +595,8 @@ fn schema_from_json(j: &J) -> Schema {
             .map(|a| {
                 a.iter()
                     .map(|x| match x["k"].as_str().unwrap_or("") {
-                        "deftag" => Stz::DefTag { query: g(x, "query"), name: g(x, "name") },
+                        "deftag" => Stz::DefTag { query: g(x, "query"), name: g(x, "name"), mutable: x["mutable"].as_bool().unwrap_or(false) },
+                        "mutate" => Stz::Mutate { query: g(x, "query"), name: g(x, "name") },
                         "deflink" => Stz::DefLink { query: g(x, "query"), name: g(x, "name") },
                         "defloop" => Stz::DefInLoop { query: g(x, "query"), name: g(x, "name") },
                         "read" => Stz::ReadDirect { query: g(x, "query"), name: g(x, "name") },
@@ -573,6 +619,7 @@ pub struct Stats {
     pub inherited_reads: usize,
     pub list_reads: usize,
     pub chain_reads: usize,
+    pub mutations: usize,
     pub outcome: &'static str,
     pub leaked: i64,
     pub transcript: u64,
@@ -602,6 +649,7 @@ fn check_case(case: &Case) -> Result<(Stats, Option<Found>), String> {
     st.inherited_reads = exp.inherited_reads;
     st.list_reads = exp.list_reads;
     st.chain_reads = exp.chain_reads;
+    st.mutations = exp.mutations;
     let file = simrun::load(&case.text).map_err(|e| format!("schema program rejected: {}\n{}", e, case.text))?;
     let fns = simrun::functions();
     let vars = simrun::make_variables(&Vec::new(), &[]);
@@ -685,7 +733,7 @@ pub fn make_case(ctx: &ShardCtx, i: u64) -> Case {
     let mut r = Rng::sub(seed, "plan");
     let lazy = r.chance(1, 2);
     let policy = Policy::ALL[r.weighted(&[2, 2, 2, 4, 2])];
-    let schema = gen_schema(&mut Rng::sub(seed, "schema"));
+    let schema = gen_schema(&mut Rng::sub(seed, "schema"), lazy);
     let mut order: Vec<usize> = (0..schema.stanzas.len()).collect();
     let interleave = r.chance(1, 2);
     if interleave {
@@ -702,7 +750,8 @@ pub fn make_case(ctx: &ShardCtx, i: u64) -> Case {
         // strict needs definers first
         order.sort_by_key(|i| match schema.stanzas[*i] {
             Stz::DefTag { .. } | Stz::DefLink { .. } | Stz::DefInLoop { .. } => 0,
-            _ => 1,
+            Stz::Mutate { .. } => 1,
+            _ => 2,
         });
     }
     let scfg = pysrc::SrcCfg {
@@ -857,6 +906,9 @@ pub fn run_shard(ctx: &ShardCtx, rep: &mut Report) {
         rep.add("probe.inherited_read_resolved_by_ancestor", st.inherited_reads as u64);
         rep.add("probe.read_through_list_element", st.list_reads as u64);
         rep.add("probe.read_through_chain", st.chain_reads as u64);
+        if !st.expected_fail {
+            rep.add("probe.mutable_variable_reassigned", st.mutations as u64);
+        }
         let defs_first = case.order.iter().map(|i| match case_stanza_is_def(&case, *i) { true => 0, false => 1 }).collect::<Vec<_>>();
         if !case.lazy && defs_first.windows(2).any(|w| w[0] > w[1]) && !st.expected_fail && st.inherited_reads > 0 {
             rep.count("probe.strict_read_between_definitions");
